@@ -65,6 +65,11 @@ pub use filter::{Bloom, BloomDataProvider, BloomProvider, Config as BloomConfig,
 /// tools to interact with pearl structures
 pub mod tools;
 
+/// verification hooks: I/O tap with failpoints, worker probe, index probe (feature `verif`)
+#[cfg(feature = "verif")]
+#[allow(missing_docs)]
+pub mod verif;
+
 pub use blob::Entry;
 pub use error::{Error, Kind as ErrorKind};
 pub use record::Meta;
